@@ -40,6 +40,7 @@ type c10Case struct {
 	Chunk  int    `json:"chunk"`
 	Delay  int    `json:"delay"`
 	Kind   string `json:"reader_kind"`
+	EOFD   bool   `json:"eof_with_data,omitempty"` // the final bytes arrive together with io.EOF (Read and ReadAt)
 }
 
 type c10 struct {
@@ -204,6 +205,7 @@ func (p *c10) Gen(t *Tape, tier string, run int) interface{} {
 	i, s := p.locate(run)
 	k := run - s.first
 	c := &c10Case{Stream: i, BAM: s.bam, Trunc: -1, RD: t.Pick("work", 1, 2, 4), Procs: 2, Chunk: t.Pick("work", 0, 0, 2), Delay: t.Pick("work", 0, 0, 1), Kind: ReaderKinds[t.Draw("work", 2)]}
+	c.EOFD = t.Chance("work", 1, 3)
 	if k < len(s.truncs) {
 		c.Trunc = s.truncs[k]
 		return c
@@ -255,7 +257,7 @@ func (p *c10) Exec(x *Exec, ci interface{}) *Verdict {
 		what = fmt.Sprintf("stream %d with byte %d changed from %#02x to %#02x", c.Stream, c.Pos, s.img[c.Pos], c.Val)
 		x.Fault("byte-substitution")
 	}
-	file := &File{X: x, Name: "f", Data: img, Chunk: c.Chunk, MaxDelay: c.Delay, Touched: make([]bool, len(img))}
+	file := &File{X: x, Name: "f", Data: img, Chunk: c.Chunk, MaxDelay: c.Delay, EOFWithData: c.EOFD, Touched: make([]bool, len(img))}
 	x.Procs = c.Procs
 	var got []byte
 	var nrec int
@@ -393,9 +395,9 @@ func (p *c10) Shrinks(ci interface{}) []interface{} {
 		n.RD = 1
 		out = append(out, &n)
 	}
-	if c.Chunk != 0 || c.Delay != 0 || c.Kind != "read+seek" {
+	if c.Chunk != 0 || c.Delay != 0 || c.Kind != "read+seek" || c.EOFD {
 		n := *c
-		n.Chunk, n.Delay, n.Kind = 0, 0, "read+seek"
+		n.Chunk, n.Delay, n.Kind, n.EOFD = 0, 0, "read+seek", false
 		out = append(out, &n)
 	}
 	return out
